@@ -876,9 +876,11 @@ pub fn tokenize(out: &[u8]) -> Result<Vec<Ev>, String> {
         } else if r.starts_with("Exiting") {
             evs.push(Ev::Exiting);
             i = rest_line(i).1;
-        } else if r.starts_with("Attempt to divide by 0 : int 0 at ") {
+        } else if rest_line(i).0.to_ascii_lowercase().contains("divide") && rest_line(i).0.contains("int 0 at ") {
+            // "Attempt to divide by 0 : int 0 at N : text" -- the divide-error report in whatever words, naming int 0 and a line
             let (l, n) = rest_line(i);
-            evs.push(Ev::DivErr(parse_num(&l["Attempt to divide by 0 : int 0 at ".len()..])));
+            let k = l.find("int 0 at ").unwrap() + "int 0 at ".len();
+            evs.push(Ev::DivErr(parse_num(&l[k..])));
             i = n;
         } else if r.starts_with("Error at line ") {
             let (l, n) = rest_line(i);
@@ -944,7 +946,8 @@ pub fn tokenize(out: &[u8]) -> Result<Vec<Ev>, String> {
             let t = l.to_ascii_lowercase();
             // further remarks between the announcement of a stepped instruction and its prompt are stepping chatter, like
             // "Trap flag is set"
-            if matches!(evs.last(), Some(Ev::About(_)) | Some(Ev::TrapNote)) && !l.trim().is_empty() && !t.contains("panick") {
+            // (likewise a further remark between a run-time error report and the closing "Exiting")
+            if matches!(evs.last(), Some(Ev::About(_)) | Some(Ev::TrapNote) | Some(Ev::DivErr(_)) | Some(Ev::UnsupInt(_))) && !l.trim().is_empty() && !t.contains("panick") {
                 i = n;
                 continue;
             }
